@@ -506,26 +506,7 @@ func c01mint(w *World, r *Report, mintSites []*Site) {
 		}
 	}
 	// amount: value added to AmountMinted
-	var amount ssa.Value
-	var amStore *ssa.Store
-	nStores := 0
-	for _, fs := range FieldStores(mintFn) {
-		if fs.Field != "AmountMinted" || !namedIs(fs.Struct, "x/cfeminter/types", "MinterState") {
-			continue
-		}
-		if c, ok := fs.Store.Val.(*ssa.Call); ok && strings.HasSuffix(callName(c.Common()), "math.Int.Add") {
-			args := c.Common().Args
-			if loadOfField(args[0], "AmountMinted", nil) {
-				amount = args[1]
-				amStore = fs.Store
-				nStores++
-			} else if loadOfField(args[1], "AmountMinted", nil) {
-				amount = args[0]
-				amStore = fs.Store
-				nStores++
-			}
-		}
-	}
+	amount, amStore, nStores := mintedIncrement(w, mintFn)
 	if amount == nil || nStores != 1 {
 		r.Bad("C01.mint1", "mint: AmountMinted += amount", w.Pos(mintFn.Pos()), fmt.Sprintf("expected exactly one update AmountMinted = AmountMinted.Add(x); found %d", nStores))
 	} else {
